@@ -59,6 +59,29 @@ pub fn easing_tables(path: &str) -> Value {
     for j in 0..=512 { let x = j as f32 / 512.0;
         for (id, e, f) in &customs { custom_checked += 1;
             if e.calc(x).to_bits() != f.calc(x).to_bits() && custom_bad.len() < 5 { custom_bad.push(json!({"custom": id, "x": x, "given": f.calc(x), "used": e.calc(x), "order": "alternating"})); } } }
+    // ... and inside a timeline: a default custom easing A, a keyframe carrying custom B and the next one custom C
+    // (all of them zero-sized types): every segment is eased by exactly the easing in force there
+    {
+        use mina::prelude::*;
+        let f64s = [2i64, 3, 4, 5];
+        for &ia in &f64s { for &ib in &f64s { for &ic in &f64s {
+            if ia == ib || ib == ic { continue; }
+            let tl = P4::timeline().duration_seconds(4.0).default_easing(easing(ia))
+                .keyframe(P4::keyframe(0.0).x(0.0).easing(easing(ib)))
+                .keyframe(P4::keyframe(0.5).x(100.0).easing(easing(ic)))
+                .keyframe(P4::keyframe(1.0).x(0.0).y(80.0)).build();
+            for (t, frac_of, from, to, ie, pick_y) in [(0.5f32, 0.25f32, 0.0f32, 100.0f32, ib, false), (3.0, 0.5, 100.0, 0.0, ic, false), (1.0, 0.25, 0.0, 80.0, ia, true), (3.5, 0.875, 0.0, 80.0, ia, true)] {
+                let mut v = SENT.clone();
+                tl.update(&mut v, t);
+                let want = mina_core::interpolation::Lerp::lerp(&from, &to, easing(ie).calc(frac_of));
+                let got = if pick_y { v.y } else { v.x };
+                custom_checked += 1;
+                if got.to_bits() != want.to_bits() && custom_bad.len() < 5 {
+                    custom_bad.push(json!({"timeline": {"default": ia, "first_keyframe": ib, "second_keyframe": ic}, "t": t, "segment_easing": ie, "got": got, "expected": want}));
+                }
+            }
+        } } }
+    }
     json!({"easings": out, "custom_checked": custom_checked, "custom_bad": custom_bad})
 }
 
